@@ -62,9 +62,9 @@ func c16ReqSeqs() []reqSeq {
 
 func c16Scenarios(tier string) []*Scenario {
 	var scs []*Scenario
-	bound := 1
+	bound := 2
 	if tier == "thorough" {
-		bound = 2
+		bound = 3
 	}
 	// (a) raw client -> real server
 	for _, method := range []string{"Unary", "ClientStream", "ServerStream", "Bidi"} {
@@ -357,7 +357,7 @@ func trailingPartial(rs reqSeq) bool { return strings.Contains(rs.name, "partial
 
 func init() {
 	register(&PropDef{ID: "C16", Level: "exploration",
-		Rule:      "(a) for each of the 4 methods, every request frame sequence with 0..3 messages, each whole or split into envelope + continuation, half-close absent or at every position, sent by a raw client to the real server; (b) every response sequence with 0..3 messages (whole/split) and OK/error close sent by a raw server to the real client for each method; (c) 1..3 application SendMsg calls on the non-streaming side of each shape, forward/reverse/revision zero; all schedules with <= 1 (quick) / 2 (thorough) deviations at frame/application granularity; oracle: handler of a non-client-streaming method observes <= 1 request and >= 2 requests end InvalidArgument; caller of a non-server-streaming method succeeds iff exactly one response and OK; the second send is refused and never reaches the wire",
+		Rule:      "(a) for each of the 4 methods, every request frame sequence with 0..3 messages, each whole or split into envelope + continuation, half-close absent or at every position, sent by a raw client to the real server; (b) every response sequence with 0..3 messages (whole/split) and OK/error close sent by a raw server to the real client for each method; (c) 1..3 application SendMsg calls on the non-streaming side of each shape, forward/reverse/revision zero; all schedules with <= 2 (quick) / 3 (thorough) deviations at frame/application granularity; oracle: handler of a non-client-streaming method observes <= 1 request and >= 2 requests end InvalidArgument; caller of a non-server-streaming method succeeds iff exactly one response and OK; the second send is refused and never reaches the wire",
 		Globals:   []func(*Scenario, *World, *Exec) []Violation{ProtoMonitor},
 		Scenarios: c16Scenarios})
 }
